@@ -152,6 +152,8 @@ class Evaluator:
             return v
         if k == 'DeclRefExpr' and n['decl'].get('dk') == 'local':
             sd = self.R.single_def_locals()
+            if self.model.get('#fields') and ('local:' + str(n['decl'].get('name'))) in self.model:
+                return self.model['local:' + n['decl']['name']]     # members change along the walk: a local keeps the value it had when declared
             if n['decl']['id'] in sd:
                 return self.ev(sd[n['decl']['id']]['init'])
             return self.model.get('local:' + n['decl']['name'])
@@ -365,6 +367,11 @@ class Evaluator:
                 return a[2] - b[2]
         if k == 'CXXConstructExpr' and len(n.get('args', [])) == 1 and (n['callee'].get('copy') or n['callee'].get('move')):
             return self.ev(n['args'][0])
+        if k == 'CallExpr' and n.get('callee', {}).get('qname') in ('abs', 'std::abs', 'labs', 'std::labs', 'llabs', 'fabs', 'std::fabs') and len(n.get('args', [])) == 1:
+            v = self.ev(n['args'][0])
+            if isinstance(v, (int, float)) and not isinstance(v, bool):
+                return abs(v)
+            return None
         if k == 'CallExpr' and n.get('callee', {}).get('qname') == 'ezc3d::toUpper' and len(n.get('args', [])) == 1:
             v = self.ev(n['args'][0])
             return v.upper() if isinstance(v, str) else None
@@ -418,8 +425,15 @@ class Evaluator:
                     pure = False
                 if pure:
                     st = {}
+                    if self.model.get('#library_lookups'):
+                        st['library_lookups'] = True      # the caller's walk models the library's look-ups: so does the helper's
                     m2 = translate_model(fn, self, n, cf, self.model)
+                    if self.model.get('#library_lookups'):
+                        m2['#library_lookups'] = True
                     _, end2, und2 = walk(cf, m2, follow_loops=True, max_steps=2000, state=st, _depth=self.depth + 1)
+                    if st.get('lookup_unread'):
+                        self.unknown['helper %s: look-up %s' % (cf.name, st['lookup_unread'])] = 'o'
+                        return None
                     if end2 == 'NEXIT' and st.get('ret') is not None:
                         return st['ret']
                     if end2.startswith('undecided') and und2:
@@ -604,6 +618,15 @@ def translate_model(fn, ev, n, cf, model):
                 hit = True
         if not hit and ('this', 'this') in roots and re.search(r'\bthis\b', kk):
             m2[pre + kk] = v      # the same object: an atom that mentions it inside a larger expression keeps its spelling
+    # string literals handed in as arguments (a group / parameter name): the callee spells them argN inside its look-ups
+    lits = [(r, t) for r, t in roots if re.match(r'^"[^"]*"$', r)]
+    if lits:
+        for k, v in list(m2.items()):
+            k2 = k
+            for r, t in lits:
+                k2 = k2.replace('(%s)' % r, '(%s)' % t)
+            if k2 != k and k2 not in m2:
+                m2[k2] = v
     return m2
 
 
@@ -666,6 +689,10 @@ def walk(fn, model, start=None, stop=None, follow_loops=False, max_steps=5000, s
     is the list of node ids met (in order), end in {'NEXIT','XEXIT','throw:<type>@node','stop@node','loop'}"""
     g = fn.events()
     model = dict(model)
+    if state is not None and state.get('library_lookups'):
+        model['#library_lookups'] = True
+    if state is not None and state.get('fields'):
+        model['#fields'] = True
     ev = Evaluator(fn, model, depth=_depth)
     if state is not None:
         state['model'] = model
@@ -806,6 +833,25 @@ def walk(fn, model, start=None, stop=None, follow_loops=False, max_steps=5000, s
                     state.setdefault('deep_calls', []).extend(st2.get('deep_calls', []))
                     if st2.get('ret') is not None:
                         model['#ret:%d' % nid] = st2['ret']
+            if state is not None and state.get('fields') and not state.get('record_calls') and n['k'] == 'CXXMemberCallExpr' and n.get('callee', {}).get('inrepo') and _depth < 3:
+                # a non-const member of the same class called on this object: its stores are ours
+                cf = fn.prog.funcs.get(n['callee']['usr'])
+                o_ = fn.nodes[fn.strip(n['obj'], 'all')] if n.get('obj') is not None else None
+                if cf is not None and cf.body is not None and cf.cls == fn.cls and cf.usr != fn.usr and (o_ is None or o_['k'] == 'CXXThisExpr') and not n['callee'].get('const'):
+                    st2 = {'fields': True}
+                    try:
+                        m2 = translate_model(fn, ev, n, cf, model)
+                        _, end2, und2 = walk(cf, m2, follow_loops=follow_loops, max_steps=max_steps, state=st2, _depth=_depth + 1)
+                    except OutOfRange:
+                        end2, und2 = 'undecided', []
+                    if end2 != 'NEXIT':
+                        if end2.startswith('throw:'):
+                            return out, end2.split('@')[0] + '@%d' % nid, undec
+                        undec.append((nid, {'member %s' % cf.name: 'o'}))
+                        return out, 'undecided@%d' % nid, undec
+                    for k_, v_ in st2['model'].items():
+                        if re.match(r'^this\.\w+$', k_):
+                            model[k_] = v_
             if state is not None and state.get('record_calls') and n['k'] == 'CXXMemberCallExpr':
                 try:
                     state.setdefault('calls', []).append((nid, [ev.ev(a) for a in n.get('args', [])]))
@@ -834,7 +880,7 @@ def walk(fn, model, start=None, stop=None, follow_loops=False, max_steps=5000, s
                                 model['ref:' + d['name']] = (ev.R.render(cn), ev.ev(ix))
                             except OutOfRange:
                                 raise
-                    if 'init' in d and d.get('tc') in ('s', 'u', 'b', 'f') and d['id'] not in ev.R.single_def_locals():
+                    if 'init' in d and d.get('tc') in ('s', 'u', 'b', 'f') and (d['id'] not in ev.R.single_def_locals() or (state is not None and state.get('fields') and not d.get('isref'))):
                         val = ev.ev(d['init'])
                         model['local:' + d['name']] = wrap(val, d.get('tc'), d.get('tw')) if val is not None else None
                     elif 'init' in d and not d.get('isref') and 'basic_string<char>' in str(d.get('type')) + str(d.get('ctype', '')) and d['id'] not in ev.R.single_def_locals():
@@ -860,6 +906,17 @@ def walk(fn, model, start=None, stop=None, follow_loops=False, max_steps=5000, s
                 t = fn.nodes[fn.strip(n['ch'][0], 'all')]
                 if t['k'] == 'DeclRefExpr' and t['decl'].get('dk') == 'local' and t['decl']['id'] not in ev.R.single_def_locals():
                     model['local:' + t['decl']['name']] = ev.ev(n['ch'][1])
+                elif state is not None and state.get('fields') and t['k'] == 'MemberExpr' and re.match(r'^this\.\w+$', ev.R.render(n['ch'][0])):
+                    # scalar members of the object, tracked on request (setters walked to their final state)
+                    try:
+                        val_ = ev.ev(n['ch'][1])
+                    except OutOfRange:
+                        val_ = None
+                    model[ev.R.render(n['ch'][0])] = wrap(val_, t.get('tc'), t.get('tw')) if isinstance(val_, int) and not isinstance(val_, bool) and t.get('tc') in ('s', 'u') else val_
+            elif n['k'] == 'CompoundAssignOperator' and state is not None and state.get('fields'):
+                t = fn.nodes[fn.strip(n['ch'][0], 'all')]
+                if t['k'] == 'MemberExpr' and re.match(r'^this\.\w+$', ev.R.render(n['ch'][0])):
+                    model[ev.R.render(n['ch'][0])] = None
         if v in g.branch and g.branch[v]['termk'] == 'CXXForRangeStmt' and len(g.branch[v]['targets']) == 2:
             # range-for: the condition holds once per element of the range
             term = fn.nodes[g.branch[v]['term']]
